@@ -260,7 +260,7 @@ C10_BUDGET_ASSUME = ["models are built at the level dsl.Validate receives them (
                      "n = 10 7.7 s / 1.3 GB, n = 12 140 s / 20 GB); its budget (30000, 25000, 1000) is 2.5 x the closed chain's per-level cost plus a quadratic term and is met for n <= 4 only",
                      "native replay: the work of the native run is the number of heap objects allocated while dsl.Validate runs (verifBoundedMaxMallocs; stable to +-5 between runs), budget "
                      "4 * (a' + b'*n + c'*n*n): record chain 414 / 921 / 1618 / 2520 -> (110, 52, 7); closed alias chain 355 / 600 / 845 / 1087 -> (115, 62, 0); nested types "
-                     "131 / 181 / 229 / 278 -> (85, 13, 0); generic alias chain (600, 500, 20) (n = 4: 7018 allocations within, n = 5: 26300 beyond); the native factor is the smaller "
+                     "131 / 181 / 229 / 278 -> (85, 13, 0); generic alias chain (600, 500, 20) (n = 4: 7018 allocations within, n = 5: 26300 beyond; instruction coefficients of this family re-fitted to (60000, 50000, 2000) after the fixes 9ceb8f6 / 5f48fb4 doubled its constant); the native factor is the smaller "
                      "one so that a run beyond the instruction budget is confirmed natively"]
 C10_BUDGET_PART = (G, "gosym_part", dict(name="c10_validate_budget", entry="internal/zzverif.C10Budget", args_quick=(12, 8), args_thorough=(16, 8), key_fn=c10_budget_key,
                                          extra_quick=("-max-depth", "2000"), extra_thorough=("-max-depth", "2000"),
